@@ -480,8 +480,8 @@ Proof.
   intros H. unfold sig_octets, blen in *. rewrite firstn_length. lia.
 Qed.
 
-Lemma enc_plain p ap mb e b :
-  plain mb e -> enc_pnlri p ap false e = Ok b ->
+Lemma enc_plain p ap wd mb e b :
+  plain mb e -> enc_pnlri p ap wd e = Ok b ->
   b = prefix_bytes ap (canon_prefix ap e) /\ prefix_ok ap mb (canon_prefix ap e).
 Proof.
   destruct e as [pid n]. unfold plain, enc_pnlri, canon_prefix. cbn [fst snd].
@@ -492,19 +492,19 @@ Proof.
             prefix_ok ap mb (if ap then pid else 0, m, sig_octets m a)).
   { intros m a [Hm [Hm8 Ha]] Hb. unfold prefix_octets, div_ceil8 in Hb. change (len a) with (blen a) in Hb.
     replace ((m + 7) / 8 <=? blen a) with true in Hb by (symmetry; apply N.leb_le; exact Ha).
-    cbn [bind] in Hb. inversion Hb; subst. unfold prefix_bytes, prefix_ok. split; [destruct ap; reflexivity|].
+    cbn [bind] in Hb. apply Ok_inj in Hb. subst b. unfold prefix_bytes, prefix_ok. split; [destruct ap; reflexivity|].
     split; [assumption|]. split; [apply sig_octets_blen; assumption|]. destruct ap; [assumption|reflexivity]. }
-  destruct n; try contradiction; cbn [enc_nlri] in H; apply Hcase; assumption.
+  destruct n; try contradiction; destruct wd; cbn [enc_nlri enc_nlri_withdraw] in H; apply Hcase; assumption.
 Qed.
 
-Lemma enc_plain_all p ap mb es : forall bs,
-  Forall (plain mb) es -> Forall2 (fun e b => enc_pnlri p ap false e = Ok b) es bs ->
+Lemma enc_plain_all p ap wd mb es : forall bs,
+  Forall (plain mb) es -> Forall2 (fun e b => enc_pnlri p ap wd e = Ok b) es bs ->
   concat bs = concat (map (prefix_bytes ap) (map (canon_prefix ap) es)) /\
   Forall (prefix_ok ap mb) (map (canon_prefix ap) es).
 Proof.
   induction es as [|e es IH]; intros bs Hp HF; inversion HF as [|? y ? l' He Hes]; subst.
   - split; [reflexivity | constructor].
-  - inversion Hp as [|? ? Hpe Hpes]; subst. destruct (enc_plain _ _ _ _ _ Hpe He) as [-> Hok].
+  - inversion Hp as [|? ? Hpe Hpes]; subst. destruct (enc_plain _ _ _ _ _ _ Hpe He) as [-> Hok].
     destruct (IH _ Hpes Hes) as [Hc Hoks]. cbn [map concat]. rewrite Hc. split; [reflexivity|].
     constructor; assumption.
 Qed.
@@ -586,16 +586,16 @@ Qed.
 Lemma reach_legacy_frame p c f nh attrs es0 es fr n :
   legacy c f = true ->
   do_encode p c (MReach f nh attrs es0) es = Ok (fr, n) -> len fr <= max_len c ->
-  Forall attr_wf attrs -> code_not 3 attrs -> Forall (plain 32) es ->
+  Forall attr_wf attrs -> code_not 3 attrs ->
   exists ws v,
     wire_attrs (two_byte c) attrs = Ok ws /\
     read_reach (max_len c) true fr = Some v /\
     rv_family v = F_IPV4 /\ rv_attrs v = map attr_tlv ws /\
     (forall b, es <> [] -> nh = Some b -> blen b = 4 -> rv_nexthop v = b) /\
-    read_prefixes (length (rv_nlri v)) (addpath_for c f) 32 (rv_nlri v)
-      = Some (map (canon_prefix (addpath_for c f)) (firstn n es)).
+    exists bs, Forall2 (fun e b => enc_pnlri p (addpath_for c f) false e = Ok b) (firstn n es) bs /\
+               rv_nlri v = concat bs.
 Proof.
-  intros Hleg Hd Hlen Hwf H3 Hplain.
+  intros Hleg Hd Hlen Hwf H3.
   pose proof (max_len_le c) as Hmax.
   destruct (reach_legacy_shape _ _ _ _ _ _ _ _ _ Hleg Hd Hwf ltac:(lia)) as [ws [bs [Hws [HF [Hoks [Hab Hfr]]]]]].
   subst fr.
@@ -616,8 +616,7 @@ Proof.
     destruct es; [congruence|]. rewrite Hnh. change (len b) with (blen b). rewrite Hb. cbn [N.eqb Pos.eqb].
     cbn [map find_attr]. unfold attr_tlv, mk_bin. cbn [a_data a_code a_flags canonical_flags].
     cbn. reflexivity. }
-  destruct (enc_plain_all _ _ _ _ _ (Forall_firstn _ n _ Hplain) HF) as [Hc Hpok].
-  rewrite Hc. apply read_prefixes_concat; [assumption | lia].
+  exists bs. split; [exact HF | reflexivity].
 Qed.
 
 (* ------------------------------------------------------------------ MP_REACH_NLRI *)
@@ -718,21 +717,20 @@ Proof.
   rewrite filter_app. do 2 f_equal. rewrite <- (app_nil_r ts) at 2. f_equal. exact Hfil.
 Qed.
 
-Lemma reach_mp_frame p c f nh attrs es0 es fr n mb :
+Lemma reach_mp_frame p c f nh attrs es0 es fr n :
   legacy c f = false ->
   do_encode p c (MReach f nh attrs es0) es = Ok (fr, n) -> len fr <= max_len c ->
   Forall attr_wf attrs -> code_not 14 attrs -> fam_ok f ->
   match nh with Some b => blen b < 248 | None => True end ->
-  Forall (plain mb) es ->
   exists ws v bytes,
     wire_attrs (two_byte c) attrs = Ok ws /\
     read_reach (max_len c) false fr = Some v /\
     rv_family v = f /\ rv_attrs v = map attr_tlv ws /\
     mp_nexthop f nh = blen bytes :: bytes /\ rv_nexthop v = bytes /\
-    read_prefixes (length (rv_nlri v)) (addpath_for c f) mb (rv_nlri v)
-      = Some (map (canon_prefix (addpath_for c f)) (firstn n es)).
+    exists bs, Forall2 (fun e b => enc_pnlri p (addpath_for c f) false e = Ok b) (firstn n es) bs /\
+               rv_nlri v = concat bs.
 Proof.
-  intros Hleg Hd Hlen Hwf H14 Hfam Hnh Hplain.
+  intros Hleg Hd Hlen Hwf H14 Hfam Hnh.
   pose proof (max_len_le c) as Hmax.
   unfold legacy in Hleg. cbn [do_encode] in Hd.
   apply bind_ok in Hd as [[ab acc] [Ha Hd]]. rewrite Hleg in Hd. cbn [fst snd] in Hd.
@@ -771,8 +769,7 @@ Proof.
     - change (blen (concat (map tlv_bytes (map attr_tlv ws ++ [(144, 14, value)]))) < 65536). rewrite Hblen. lia. }
   cbn [rv_family rv_attrs rv_nexthop rv_nlri].
   split; [reflexivity|]. split; [reflexivity|]. split; [exact Hbytes|]. split; [reflexivity|].
-  destruct (enc_plain_all _ _ _ _ _ (Forall_firstn _ cnt _ Hplain) HF) as [Hc Hpok].
-  rewrite Hc. apply read_prefixes_concat; [assumption | lia].
+  exists bs. split; [exact HF | reflexivity].
 Qed.
 
 (* ------------------------------------------------------------------ next hop field *)
@@ -805,6 +802,65 @@ Lemma legacy_family c f : legacy c f = true -> f = F_IPV4.
 Proof. unfold legacy. intros H. apply andb_prop in H as [H _]. apply N.eqb_eq in H. exact H. Qed.
 
 (* ------------------------------------------------------------------ C04: Reach *)
+Theorem C04_reach_frames :
+  forall (p : profile) (c : codec) (f : N) (nh : option (list N)) (attrs : list attr)
+         (es : list pnlri) (frames : list (list N)),
+    encode_to p c (MReach f nh attrs es) = Ok frames ->
+    Forall attr_wf attrs -> code_not 3 attrs -> code_not 14 attrs -> fam_ok f ->
+    match nh with Some b => blen b < 248 | None => True end ->
+    exists ws chunks,
+      wire_attrs (two_byte c) attrs = Ok ws /\
+      concat chunks = es /\
+      Forall2 (reach_frame_bytes p c f nh ws (es <> [])) frames chunks.
+Proof.
+  intros p c f nh attrs es frames H Hwf H3 H14 Hfam Hnh.
+  unfold encode_to in H. cbn [entries_of] in H.
+  assert (Hw : exists ws, wire_attrs (two_byte c) attrs = Ok ws).
+  { cbn [enc_loop] in H. apply bind_ok in H as [[fr n] [Hd _]].
+    cbn [do_encode] in Hd. apply bind_ok in Hd as [[ab acc] [Ha _]].
+    apply enc_attrs_wire in Ha as [ws [Hws _]]. eauto. }
+  destruct Hw as [ws Hws]. exists ws.
+  destruct (enc_loop_inv p c (MReach f nh attrs es)
+              (fun es' => es' = [] -> es = [])
+              (reach_frame_bytes p c f nh ws (es <> [])))
+    with (fuel := S (length es)) (es := es) (frames := frames)
+    as [chunks [Hc HF]].
+  - intros es' n _ Hne E. congruence.
+  - intros es' fr n Htop Hd Hlen. unfold reach_frame_bytes.
+    destruct (legacy c f) eqn:Hleg.
+    + destruct (reach_legacy_frame _ _ _ _ _ _ _ _ _ Hleg Hd Hlen Hwf H3)
+        as [ws' [v [Hws' [Hread [Hfam' [Hat [Hnhv Hbs]]]]]]].
+      rewrite Hws in Hws'. apply Ok_inj in Hws'. subst ws'.
+      exists v. split; [exact Hread|]. split; [rewrite Hfam'; symmetry; eapply legacy_family; eassumption|].
+      split; [exact Hat|]. split; [|exact Hbs].
+      intros b Hne Hb Hrep. unfold nh_representable, expected_nh in *. rewrite Hleg in *.
+      apply Hnhv; [intros E; apply Hne; apply Htop; exact E | exact Hb | exact Hrep].
+    + destruct (reach_mp_frame _ _ _ _ _ _ _ _ _ Hleg Hd Hlen Hwf H14 Hfam Hnh)
+        as [ws' [v [bytes [Hws' [Hread [Hfam' [Hat [Hbytes [Hnhv Hbs]]]]]]]]].
+      rewrite Hws in Hws'. apply Ok_inj in Hws'. subst ws'.
+      exists v. split; [exact Hread|]. split; [exact Hfam'|]. split; [exact Hat|]. split; [|exact Hbs].
+      intros b _ Hb Hrep. unfold nh_representable, expected_nh in *. rewrite Hleg in *.
+      destruct Hrep as [Hb248 Hrep]. subst nh. rewrite Hnhv.
+      eapply mp_nexthop_expected; eassumption.
+  - tauto.
+  - lia.
+  - exact H.
+  - exists chunks. auto.
+Qed.
+
+Lemma Forall_concat_inv {A} (P : A -> Prop) (ls : list (list A)) : Forall P (concat ls) -> Forall (Forall P) ls.
+Proof.
+  induction ls as [|l ls IH]; intros H; [constructor|].
+  cbn [concat] in H. apply Forall_app in H as [H1 H2]. constructor; [assumption | apply IH; assumption].
+Qed.
+
+Lemma Forall2_impl_with {A B} (P : A -> Prop) (R1 R2 : B -> A -> Prop) (lb : list B) (la : list A) :
+  (forall b a, P a -> R1 b a -> R2 b a) -> Forall P la -> Forall2 R1 lb la -> Forall2 R2 lb la.
+Proof.
+  intros Himp HP HF. revert HP. induction HF as [|b a lb la Hr HF IH]; intros HP; [constructor|].
+  inversion HP; subst. constructor; [apply Himp; assumption | apply IH; assumption].
+Qed.
+
 Theorem C04_decode_encode_routes :
   forall (p : profile) (c : codec) (f : N) (nh : option (list N)) (attrs : list attr)
          (es : list pnlri) (frames : list (list N)),
@@ -818,37 +874,287 @@ Theorem C04_decode_encode_routes :
       Forall2 (reach_frame_ok c f nh ws (es <> [])) frames chunks.
 Proof.
   intros p c f nh attrs es frames H Hwf H3 H14 Hfam Hnh Hplain.
-  unfold encode_to in H. cbn [entries_of] in H.
-  assert (Hw : exists ws, wire_attrs (two_byte c) attrs = Ok ws).
-  { cbn [enc_loop] in H. apply bind_ok in H as [[fr n] [Hd _]].
-    cbn [do_encode] in Hd. apply bind_ok in Hd as [[ab acc] [Ha _]].
-    apply enc_attrs_wire in Ha as [ws [Hws _]]. eauto. }
-  destruct Hw as [ws Hws]. exists ws.
-  destruct (enc_loop_inv p c (MReach f nh attrs es)
-              (fun es' => (es' = [] -> es = []) /\ Forall (plain (maxbits_of f)) es')
-              (reach_frame_ok c f nh ws (es <> [])))
-    with (fuel := S (length es)) (es := es) (frames := frames)
-    as [chunks [Hc HF]].
-  - intros es' n [_ Hp] Hne. split; [intros E; congruence | apply Forall_skipn; exact Hp].
-  - intros es' fr n [Htop Hpl] Hd Hlen. unfold reach_frame_ok.
-    destruct (legacy c f) eqn:Hleg.
-    + rewrite (legacy_maxbits _ _ Hleg) in *.
-      destruct (reach_legacy_frame _ _ _ _ _ _ _ _ _ Hleg Hd Hlen Hwf H3 Hpl)
-        as [ws' [v [Hws' [Hread [Hfam' [Hat [Hnhv Hpre]]]]]]].
-      rewrite Hws in Hws'. apply Ok_inj in Hws'. subst ws'.
-      exists v. split; [exact Hread|]. split; [rewrite Hfam'; symmetry; eapply legacy_family; eassumption|].
-      split; [exact Hat|]. split; [|exact Hpre].
-      intros b Hne Hb Hrep. unfold nh_representable, expected_nh in *. rewrite Hleg in *.
-      apply Hnhv; [intros E; apply Hne; apply Htop; exact E | exact Hb | exact Hrep].
-    + destruct (reach_mp_frame _ _ _ _ _ _ _ _ _ (maxbits_of f) Hleg Hd Hlen Hwf H14 Hfam Hnh Hpl)
-        as [ws' [v [bytes [Hws' [Hread [Hfam' [Hat [Hbytes [Hnhv Hpre]]]]]]]]].
-      rewrite Hws in Hws'. apply Ok_inj in Hws'. subst ws'.
-      exists v. split; [exact Hread|]. split; [exact Hfam'|]. split; [exact Hat|]. split; [|exact Hpre].
-      intros b _ Hb Hrep. unfold nh_representable, expected_nh in *. rewrite Hleg in *.
-      destruct Hrep as [Hb248 Hrep]. subst nh. rewrite Hnhv.
-      eapply mp_nexthop_expected; eassumption.
-  - split; [tauto | exact Hplain].
-  - lia.
-  - exact H.
-  - exists chunks. auto.
+  destruct (C04_reach_frames _ _ _ _ _ _ _ H Hwf H3 H14 Hfam Hnh) as [ws [chunks [Hws [Hc HF]]]].
+  exists ws, chunks. split; [exact Hws|]. split; [exact Hc|].
+  rewrite <- Hc in Hplain. apply Forall_concat_inv in Hplain.
+  eapply Forall2_impl_with; [| exact Hplain | exact HF].
+  intros fr chunk Hpl [v [Hread [Hfam' [Hat [Hnhv [bs [Hbs Hnl]]]]]]].
+  exists v. repeat (split; [assumption|]).
+  destruct (enc_plain_all _ _ _ _ _ _ Hpl Hbs) as [Hcc Hpok].
+  rewrite Hnl, Hcc. apply read_prefixes_concat; [assumption | lia].
+Qed.
+
+(* ------------------------------------------------------------------ C04: Unreach *)
+Lemma read_mp_unreach_built f body :
+  fam_ok f -> read_mp_unreach (be16 (afi f) ++ [safi f] ++ body) = Some (f, body).
+Proof.
+  intros [Hf _]. unfold read_mp_unreach, be16. cbn [app].
+  rewrite be16_rd16 by apply afi_lt. unfold fam in Hf. rewrite <- Hf. reflexivity.
+Qed.
+
+Lemma mp_unreach_spec p c cur f es mpb mp_len cnt :
+  mp_unreach p c cur f es = Ok (mpb, mp_len, cnt) -> len mpb <= 65535 ->
+  exists bs,
+    Forall2 (fun e b => enc_pnlri p (addpath_for c f) true e = Ok b) (firstn cnt es) bs /\
+    mpb = tlv_bytes (144, 15, be16 (afi f) ++ [safi f] ++ concat bs) /\
+    mp_len = len mpb.
+Proof.
+  unfold mp_unreach. intros H Hlen.
+  apply bind_ok in H as [[eb en] [He H]]. cbn [fst snd] in H.
+  apply bind_ok in H as [v [Hv H]].
+  set (head := be16 (afi f) ++ [safi f]) in *.
+  assert (Hm : mpb = [144; 15] ++ be16 v ++ head ++ eb) by (inversion H; reflexivity).
+  assert (Hml : mp_len = trunc16 (4 + len head + len eb)) by (inversion H; reflexivity).
+  assert (Hc : cnt = en) by (inversion H; reflexivity).
+  clear H. subst cnt.
+  apply put_entries_spec in He as [bs [HF [Heb [_ _]]]].
+  exists bs. split; [assumption|].
+  assert (Hl : len mpb = 4 + len head + len eb).
+  { rewrite Hm, !len_app, len_be16. change (len [144; 15]) with 2. lia. }
+  assert (Hsm : 4 + len head + len eb < 65536) by lia.
+  rewrite trunc16_small in Hv by exact Hsm. rewrite trunc16_small in Hml by exact Hsm.
+  unfold sub16 in Hv. replace (4 <=? 4 + len head + len eb) with true in Hv by (symmetry; apply N.leb_le; lia).
+  cbv iota in Hv. apply Ok_inj in Hv. assert (Hvv : v = len head + len eb) by lia. clear Hv.
+  split; [|lia].
+  rewrite Hm, Hvv. unfold tlv_bytes. change (N.testbit 144 4) with true. cbn iota.
+  replace (blen (be16 (afi f) ++ [safi f] ++ concat bs)) with (len head + len eb).
+  - subst head eb. rewrite <- !app_assoc. reflexivity.
+  - subst head eb. change blen with (@len N). rewrite !len_app. lia.
+Qed.
+
+Lemma unreach_frame p c f es0 es fr n :
+  do_encode p c (MUnreach f es0) es = Ok (fr, n) -> len fr <= max_len c ->
+  fam_ok f ->
+  unreach_frame_bytes p c f fr (firstn n es).
+Proof.
+  intros Hd Hlen Hfam. pose proof (max_len_le c) as Hmax.
+  unfold unreach_frame_bytes. cbn [do_encode] in Hd. fold (legacy c f) in Hd.
+  destruct (legacy c f) eqn:Hleg.
+  - pose proof (legacy_family _ _ Hleg) as Hf4.
+    apply bind_ok in Hd as [[eb en] [He Hd]]. cbn [fst snd] in Hd.
+    assert (Hfr : fr = frame_of ([2] ++ be16 (trunc16 (len eb)) ++ eb ++ [0; 0])) by (inversion Hd; reflexivity).
+    assert (Hn : n = en) by (inversion Hd; reflexivity). clear Hd. subst n.
+    apply put_entries_spec in He as [bs [HF [Heb [_ _]]]].
+    assert (Hl : len fr = 18 + (5 + len eb)).
+    { rewrite Hfr, len_frame_of, !len_app, len_be16. change (len [2]) with 1. change (len [0; 0]) with 2. lia. }
+    exists eb. split.
+    + unfold read_unreach.
+      assert (Hfr' : fr = frame_of (2 :: be16 (blen eb) ++ eb ++ be16 (blen (concat (map tlv_bytes []))) ++
+                                    concat (map tlv_bytes []) ++ [])).
+      { rewrite Hfr. rewrite trunc16_small by lia. reflexivity. }
+      pose proof Hlen as Hlen'. rewrite Hfr' in Hlen'. rewrite Hfr'.
+      rewrite read_frame_of; [| rewrite len_frame_of in Hlen'; exact Hlen' | exact Hmax].
+      rewrite read_update_built; [| change (blen eb) with (len eb); lia | constructor | cbn; lia].
+      cbn [u_attrs u_nlri u_withdrawn]. rewrite Hf4. reflexivity.
+    + exists bs. split; [exact HF | exact Heb].
+  - apply bind_ok in Hd as [[[mpb mp_len] cnt] [Hmp Hd]].
+    assert (Hfr : fr = frame_of ([2; 0; 0] ++ be16 mp_len ++ mpb)) by (inversion Hd; reflexivity).
+    assert (Hn : n = cnt) by (inversion Hd; reflexivity). clear Hd. subst n.
+    assert (Hl : len fr = 18 + (5 + len mpb)).
+    { rewrite Hfr, len_frame_of, !len_app, len_be16. change (len [2; 0; 0]) with 3. lia. }
+    destruct (mp_unreach_spec _ _ _ _ _ _ _ _ Hmp ltac:(lia)) as [bs [HF [Hmpb Hmpl]]].
+    set (value := be16 (afi f) ++ [safi f] ++ concat bs) in *.
+    exists (concat bs). split.
+    + unfold read_unreach.
+      assert (Hfr' : fr = frame_of (2 :: be16 (blen []) ++ [] ++ be16 (blen (concat (map tlv_bytes [(144, 15, value)]))) ++
+                                    concat (map tlv_bytes [(144, 15, value)]) ++ [])).
+      { rewrite Hfr, Hmpl. cbn [map concat]. rewrite !app_nil_r, <- Hmpb. reflexivity. }
+      pose proof Hlen as Hlen'. rewrite Hfr' in Hlen'. rewrite Hfr'.
+      rewrite read_frame_of; [| rewrite len_frame_of in Hlen'; exact Hlen' | exact Hmax].
+      rewrite read_update_built.
+      * cbn [u_attrs u_nlri u_withdrawn is_code fst snd N.eqb Pos.eqb]. subst value.
+        apply read_mp_unreach_built. exact Hfam.
+      * cbn; lia.
+      * constructor; [|constructor]. cbn [tlv_ok]. change (N.testbit 144 4) with true. cbn iota.
+        assert (Hx : blen value <= len mpb).
+        { rewrite Hmpb. unfold tlv_bytes. change (N.testbit 144 4) with true. cbn iota. rewrite !len_app.
+          change (len value) with (blen value). lia. }
+        lia.
+      * cbn [map concat]. rewrite app_nil_r, <- Hmpb. change (blen mpb) with (len mpb). lia.
+    + exists bs. split; [exact HF | reflexivity].
+Qed.
+
+Theorem C04_unreach_frames :
+  forall (p : profile) (c : codec) (f : N) (es : list pnlri) (frames : list (list N)),
+    encode_to p c (MUnreach f es) = Ok frames -> fam_ok f ->
+    exists chunks, concat chunks = es /\ Forall2 (unreach_frame_bytes p c f) frames chunks.
+Proof.
+  intros p c f es frames H Hfam. unfold encode_to in H. cbn [entries_of] in H.
+  apply (enc_loop_inv p c (MUnreach f es) (fun _ => True) (unreach_frame_bytes p c f))
+    with (fuel := S (length es)) (es := es) (frames := frames); auto.
+  intros es' fr n _ Hd Hlen. eapply unreach_frame; eassumption.
+Qed.
+
+Theorem C04_split_preserves_multiset :
+  forall (p : profile) (c : codec) (f : N) (es : list pnlri) (frames : list (list N)),
+    encode_to p c (MUnreach f es) = Ok frames ->
+    fam_ok f -> Forall (plain (maxbits_of f)) es ->
+    exists chunks, concat chunks = es /\ Forall2 (unreach_frame_ok c f) frames chunks.
+Proof.
+  intros p c f es frames H Hfam Hplain.
+  destruct (C04_unreach_frames _ _ _ _ _ H Hfam) as [chunks [Hc HF]].
+  exists chunks. split; [exact Hc|].
+  rewrite <- Hc in Hplain. apply Forall_concat_inv in Hplain.
+  eapply Forall2_impl_with; [| exact Hplain | exact HF].
+  intros fr chunk Hpl [wd [Hread [bs [Hbs Hwd]]]].
+  exists wd. split; [exact Hread|].
+  destruct (enc_plain_all _ _ _ _ _ _ Hpl Hbs) as [Hcc Hpok].
+  rewrite Hwd, Hcc. apply read_prefixes_concat; [assumption | lia].
+Qed.
+
+(* ------------------------------------------------------------------ C04: OPEN *)
+Definition tlv8_bytes (t : N * list N) : list N := [fst t; blen (snd t)] ++ snd t.
+
+Lemma read_tlv8_nil fuel : read_tlv8 fuel [] = Some [].
+Proof. destruct fuel; reflexivity. Qed.
+
+Lemma read_tlv8_concat ts : forall fuel,
+  Forall (fun t => blen (snd t) < 256) ts -> (length (concat (map tlv8_bytes ts)) <= fuel)%nat ->
+  read_tlv8 fuel (concat (map tlv8_bytes ts)) = Some ts.
+Proof.
+  induction ts as [|[t v] ts IH]; intros fuel Hok Hfuel; cbn [map concat].
+  - apply read_tlv8_nil.
+  - inversion Hok; subst. cbn [map concat] in Hfuel. unfold tlv8_bytes at 1 in Hfuel. cbn [fst snd app] in Hfuel.
+    destruct fuel as [|k]; [cbn in Hfuel; lia|].
+    unfold tlv8_bytes at 1. cbn [fst snd app read_tlv8].
+    rewrite take_app.
+    rewrite IH; [reflexivity | assumption |].
+    cbn [length] in Hfuel. rewrite app_length in Hfuel. lia.
+Qed.
+
+Lemma flat_map_length {A} (g : A -> list N) (k : nat) (l : list A) :
+  (forall x, length (g x) = k) -> length (flat_map g l) = (k * length l)%nat.
+Proof.
+  intros Hg. induction l as [|x l IH]; [cbn; lia|]. cbn [flat_map length]. rewrite app_length, Hg, IH. lia.
+Qed.
+
+Lemma blen_flat_map {A} (g : A -> list N) (k : nat) (l : list A) :
+  (forall x, length (g x) = k) -> blen (flat_map g l) = N.of_nat k * len l.
+Proof. intros Hg. unfold blen, len. rewrite (flat_map_length g k l Hg). lia. Qed.
+
+Lemma be32_fam f : fam_ok f -> be32 f = be16 (afi f) ++ be16 (safi f).
+Proof.
+  intros [Hf Ha]. unfold be32, be16. cbn [app].
+  pose proof (safi_lt f) as Hs.
+  assert (H1 : f / 65536 = afi f).
+  { rewrite Hf at 1. unfold fam. rewrite N.div_add_l by lia. rewrite N.div_small by lia. lia. }
+  assert (H2 : f mod 256 = safi f) by reflexivity.
+  assert (H3 : (f / 256) mod 256 = 0).
+  { rewrite Hf at 1. unfold fam. replace (afi f * 65536 + safi f) with (safi f + (afi f * 256) * 256) by lia.
+    rewrite N.div_add by lia. rewrite (N.div_small (safi f)) by lia. rewrite N.add_0_l.
+    rewrite N.mod_mul by lia. reflexivity. }
+  assert (H4 : f / 16777216 = afi f / 256).
+  { replace 16777216 with (65536 * 256) by reflexivity. rewrite <- N.div_div by lia. rewrite H1. reflexivity. }
+  rewrite H4, H1, H2, H3.
+  rewrite (N.div_small (safi f) 256) by lia. rewrite (N.mod_small (safi f) 256) by lia. reflexivity.
+Qed.
+
+Lemma extnh_value l :
+  Forall (fun x : N * N => fam_ok (fst x)) l ->
+  flat_map (fun x : N * N => be32 (fst x) ++ be16 (snd x)) l =
+  flat_map (fun x : N * N => be16 (afi (fst x)) ++ be16 (safi (fst x)) ++ be16 (snd x)) l.
+Proof.
+  induction l as [|x l IH]; intros Hwf; [reflexivity|]. inversion Hwf; subst. cbn [flat_map].
+  rewrite IH by assumption. rewrite be32_fam by assumption. rewrite <- app_assoc. reflexivity.
+Qed.
+
+Lemma enc_cap_tlv c b :
+  enc_cap c = Ok b -> cap_wf c -> b = tlv8_bytes (cap_tlv c) /\ blen (snd (cap_tlv c)) < 256.
+Proof.
+  unfold enc_cap. intros H Hwf.
+  destruct (257 <? len (enc_cap_bytes c)) eqn:Hlt; [discriminate|]. apply N.ltb_ge in Hlt.
+  apply Ok_inj in H. subst b.
+  assert (Hgen : forall code vl value, enc_cap_bytes c = [code; trunc8 vl] ++ value -> vl = blen value ->
+             cap_tlv c = (code, value) -> enc_cap_bytes c = tlv8_bytes (cap_tlv c) /\ blen (snd (cap_tlv c)) < 256).
+  { intros code vl value He Hvl Ht. rewrite Ht. cbn [snd]. rewrite He in Hlt.
+    rewrite len_app in Hlt. change (len [code; trunc8 vl]) with 2 in Hlt. change (len value) with (blen value) in Hlt.
+    split; [|lia]. rewrite He. unfold tlv8_bytes. cbn [fst snd]. rewrite Hvl, trunc8_small by lia. reflexivity. }
+  destruct c as [f | | l | | fl t l | a | l | | l | h d | code bin]; cbn [enc_cap_bytes cap_tlv] in *.
+  - eapply (Hgen 1 4 _); [reflexivity | reflexivity | reflexivity].
+  - eapply (Hgen 2 0 []); reflexivity.
+  - cbn [cap_wf] in Hwf.
+    pose proof (extnh_value l Hwf) as Hv.
+    rewrite Hv in *. eapply Hgen; [reflexivity | | reflexivity].
+    rewrite (blen_flat_map _ 6); [lia | reflexivity].
+  - eapply (Hgen 6 0 []); reflexivity.
+  - eapply Hgen; [reflexivity | | reflexivity].
+    rewrite blen_app. rewrite (blen_flat_map _ 4) by reflexivity. change blen with (@len N). rewrite len_be16. lia.
+  - eapply (Hgen 65 4 _); [reflexivity | reflexivity | reflexivity].
+  - eapply Hgen; [reflexivity | | reflexivity].
+    rewrite (blen_flat_map _ 4); [lia | reflexivity].
+  - eapply (Hgen 70 0 []); reflexivity.
+  - eapply Hgen; [reflexivity | | reflexivity].
+    rewrite (blen_flat_map _ 7); [lia | reflexivity].
+  - eapply (Hgen 73 _ ([trunc8 (len h)] ++ map lower h ++ [trunc8 (len d)] ++ map lower d)); [reflexivity | | reflexivity].
+    rewrite !blen_app. unfold blen, len. cbn [length]. rewrite !map_length. lia.
+  - eapply Hgen; [reflexivity | reflexivity | reflexivity].
+Qed.
+
+Lemma take_all (l : list N) : take (blen l) l = Some (l, []).
+Proof. rewrite <- (app_nil_r l) at 2. apply take_app. Qed.
+
+Lemma enc_caps_spec l : forall acc bytes acc',
+  enc_caps acc l = Ok (bytes, acc') -> Forall cap_wf l ->
+  bytes = concat (map tlv8_bytes (map cap_tlv l)) /\
+  Forall (fun t => blen (snd t) < 256) (map cap_tlv l) /\ acc' = acc + len bytes.
+Proof.
+  induction l as [|c l IH]; intros acc bytes acc' H Hwf; cbn [enc_caps] in H.
+  - apply Ok_inj in H. inversion H; subst. cbn [map concat]. split; [reflexivity|]. split; [constructor|].
+    rewrite len_nil. lia.
+  - apply bind_ok in H as [b [Hb H]]. apply bind_ok in H as [[rb racc] [Hr H]].
+    cbn [fst snd] in H. apply Ok_inj in H. inversion H; subst. clear H.
+    inversion Hwf as [|? ? Hc Hl]; subst.
+    destruct (enc_cap_tlv _ _ Hb Hc) as [Hbs Hok].
+    destruct (IH _ _ _ Hr Hl) as [Hrb [Hoks Hacc]].
+    cbn [map concat]. split; [rewrite <- Hbs, <- Hrb; reflexivity|].
+    split; [constructor; assumption|]. rewrite Hacc, len_app. lia.
+Qed.
+
+Lemma be16_small_parts n : n < 65536 -> be16 n = [n / 256; n mod 256].
+Proof.
+  intros H. unfold be16. rewrite (N.mod_small (n / 256)); [reflexivity|]. apply N.div_lt_upper_bound; lia.
+Qed.
+
+Theorem C04_open_roundtrip :
+  forall (p : profile) (c : codec) (asn hold rid : N) (caps : list cap) (frames : list (list N)),
+    encode_to p c (MOpen asn hold rid caps) = Ok frames ->
+    asn < 4294967296 -> hold < 65536 -> rid < 4294967296 -> Forall cap_wf caps ->
+    exists fr, frames = [fr] /\ open_ok (max_len c) asn hold rid caps fr.
+Proof.
+  intros p c asn hold rid caps frames H Hasn Hhold Hrid Hwf.
+  pose proof (max_len_le c) as Hmax.
+  unfold encode_to in H. cbn [entries_of length enc_loop] in H.
+  apply bind_ok in H as [[fr n] [Hd H]]. cbn [fst snd] in H.
+  destruct (max_len c <? len fr) eqn:Hlt; [discriminate|]. apply N.ltb_ge in Hlt.
+  rewrite skipn_nil in H. apply Ok_inj in H. subst frames.
+  exists fr. split; [reflexivity|]. unfold open_ok.
+  set (t := if 65535 <? asn then TRANS_ASN else asn) in *.
+  assert (Ht : t < 65536).
+  { subst t. destruct (65535 <? asn) eqn:E; [unfold TRANS_ASN; lia | apply N.ltb_ge in E; lia]. }
+  cbn [do_encode] in Hd. fold t in Hd.
+  destruct caps as [|c0 caps'].
+  - apply Ok_inj in Hd. inversion Hd; subst fr n. clear Hd.
+    eexists. eexists. split.
+    + cbn [app]. apply read_frame_of; [| exact Hmax]. rewrite len_frame_of in Hlt. cbn [app] in Hlt. exact Hlt.
+    + unfold be16, be32. cbn [app read_open]. cbn [blen length N.of_nat N.eqb read_tlv8 caps_of_params].
+      cbn [o_version o_as o_hold o_id o_caps map].
+      rewrite !be16_rd16 by assumption. rewrite be32_rd32 by assumption.
+      subst t. unfold TRANS_ASN. repeat split; reflexivity.
+  - apply bind_ok in Hd as [[cb cl] [Hc Hd]]. cbn [fst snd] in Hd.
+    destruct (255 <? cl + 2) eqn:Hov; [discriminate|]. apply N.ltb_ge in Hov.
+    apply Ok_inj in Hd. inversion Hd; subst fr n. clear Hd.
+    destruct (enc_caps_spec _ _ _ _ Hc Hwf) as [Hcb [Hoks Hcl]]. rewrite N.add_0_l in Hcl.
+    eexists. eexists. split.
+    + cbn [app]. apply read_frame_of; [| exact Hmax]. rewrite len_frame_of in Hlt. cbn [app] in Hlt. exact Hlt.
+    + unfold be16, be32. cbn [app read_open].
+      assert (Hb1 : blen (2 :: cl :: cb) = cl + 2).
+      { rewrite !blen_cons. change (blen cb) with (len cb). lia. }
+      rewrite Hb1, N.eqb_refl.
+      assert (Hrd : read_tlv8 (length (2 :: cl :: cb)) (2 :: cl :: cb) = Some [(2, cb)]).
+      { rewrite Hcl. cbn [length read_tlv8]. change (len cb) with (blen cb). rewrite take_all. reflexivity. }
+      rewrite Hrd. cbn [caps_of_params N.eqb Pos.eqb].
+      rewrite Hcb at 1 2. rewrite read_tlv8_concat; [| assumption | lia].
+      cbn [o_version o_as o_hold o_id o_caps]. rewrite app_nil_r.
+      rewrite !be16_rd16 by assumption. rewrite be32_rd32 by assumption.
+      subst t. unfold TRANS_ASN. repeat split; reflexivity.
 Qed.
